@@ -105,21 +105,23 @@ def make_ob(cfg, rule, seed, pid="C13", strict_phase=False):
             if any(getattr(m, "postselect", None) not in (None, o) for m, o in zip(meas_ops, outcomes)):
                 continue
             B = branch_matrix(ops, wire_order, work, outcomes, meas_ops)
-            cols = [t << nw for t in range(2 ** nt)]
+            valid = getattr(cfg, "valid_inputs", None) or list(range(2 ** nt))     # the operator's documented input domain
+            cols = [t << nw for t in valid]
             Mz = B[:, cols]
             if all(x.is_zero() for x in Mz.flat):
                 continue          # zero-amplitude branch
             branches += 1
             # pivot of the target
-            piv = next(((i, j) for i in range(2 ** nt) for j in range(2 ** nt) if not T[i, j].is_zero()), None)
+            Tv = T[:, valid]
+            piv = next(((i, j) for i in range(2 ** nt) for j in range(len(valid)) if not Tv[i, j].is_zero()), None)
             i0, j0 = piv
             fac = [Mz[(i0 << nw) | w, j0] for w in range(2 ** nw)]      # = c_b * aux_w * T[i0,j0]
             ok = True
             for i in range(2 ** nt):
-                for j in range(2 ** nt):
+                for j in range(len(valid)):
                     for w in range(2 ** nw):
-                        lhs = Mz[(i << nw) | w, j] * T[i0, j0]
-                        rhs = fac[w] * T[i, j]
+                        lhs = Mz[(i << nw) | w, j] * Tv[i0, j0]
+                        rhs = fac[w] * Tv[i, j]
                         if not (lhs - rhs).is_zero():
                             ok = False
             if not ok or all(f.is_zero() for f in fac):
